@@ -652,6 +652,11 @@ def check_C16(tier, seed):
         viol, r, n_out, n_states = conccheck.judge(results, inst_kw)
         conccheck.report(v, results, viol, allp, r, n_out, n_states)
     real = mpreal.run(tier, seed)
+    for r_ in real:
+        if r_.get("harness_error"):
+            v.incomplete("real-process scenario %s did not complete: %s"
+                         % (r_["scenario"]["name"], r_["harness_error"]))
+    real = [r_ for r_ in real if not r_.get("harness_error")]
     rviol, rr, n_out, n_states = conccheck.judge(real, conccheck.OBJ_INST)
     conccheck.report(v, real, rviol, allp, rr, n_out, n_states)
     v.coverage["sequential_mp"] = {k: seq_cov.get(k) for k in
